@@ -46,9 +46,20 @@ def run(chk):
         hexs = "$h = { %s }" % " ".join("%02X" % c for c in base[:4])
         cond = r.choice(["$a", "#a > 1", "$a at %d" % r.below(8), "$a and filesize > 4", "any of them", "$a or $h"])
         target = "rule target { strings: %s %s condition: %s or (false and $h) }\n" % (decl, hexs, cond)
+        atomless = r.chance(1, 3)
+        if atomless:
+            # a string for which no atom can be extracted: its matches hang off the root state of the automaton and must be
+            # inherited by every other state, whatever the other rules put into the automaton
+            cls = r.choice(["[0-9][a-f][0-9]", "[a-c][0-9]", "\\d[a-z]\\d", "[0-9a-f][0-9a-f][x-z]"])
+            target = "rule target { strings: $a = /%s/ condition: $a }\n" % cls
         others = []
-        for k in range(r.range(1, 5)):
+        nothers = r.range(1, 5)
+        for k in range(nothers):
             t2 = related_text(r, base)
+            if atomless and k < 2:
+                # a pair where a prefix of one string has a suffix that is a prefix of the other, in either order
+                pair = [base[:4].ljust(4, b"q"), base[1:4].ljust(3, b"q") + bytes([r.choice(b"efgh")])]
+                t2 = pair[k] if r.chance(1, 2) else pair[1 - k]
             m2 = rulegen.rand_text_mods(r)
             m2["private"] = False
             d2, _ = rulegen.text_string_decl(r, "$b", t2, m2)
@@ -60,6 +71,11 @@ def run(chk):
         for _ in range(4):
             size = r.range(8, 120)
             buf = bytearray(r.bytes(size))
+            if atomless:
+                # the class string matching right after a prefix of a companion string
+                stub = base[:3] + bytes([r.choice(b"0123456789"), r.choice(b"abcdef"), r.choice(b"0123456789"), r.choice(b"xyz")])
+                p0 = r.below(max(1, size - len(stub)))
+                buf[p0:p0 + len(stub)] = stub[:max(0, size - p0)]
             for _ in range(r.range(1, 4)):
                 v = base if r.chance(1, 2) else related_text(r, base)
                 if m["wide"] and r.chance(1, 2):
